@@ -126,7 +126,7 @@ fn main() {
     }
     match prop.as_str() {
         "c01" => {
-            let cfg = StreamCfg { positions: args.budget(400_000, 4_000_000), max_plies: 400, max_half: 4095, max_full: 30000 };
+            let cfg = StreamCfg { positions: args.budget(400_000, 4_000_000), max_plies: 400, max_half: 4095, max_full: 1_000_000 };
             let (pe, pd) = if args.thorough { (40, 3) } else { (60, 2) };
             stream::run_carried2(&args, &cfg, &mut rep, &mut |p, rep, rng, carried, carried_uci| {
                 c01::check(p, rep, rng, pe, pd);
@@ -135,7 +135,7 @@ fn main() {
             });
         }
         "c02" => {
-            let cfg = StreamCfg { positions: args.budget(300_000, 3_000_000), max_plies: 600, max_half: 4095, max_full: 30000 };
+            let cfg = StreamCfg { positions: args.budget(300_000, 3_000_000), max_plies: 600, max_half: 4095, max_full: 1_000_000 };
             stream::run_carried(&args, &cfg, &mut rep, &mut |p, rep, rng, carried| {
                 c02::check(p, rep, rng);
                 // the board carried through its own make() over the whole walk (up to 600 plies) must
@@ -153,7 +153,7 @@ fn main() {
             });
         }
         "c03" => {
-            let cfg = StreamCfg { positions: args.budget(300_000, 3_000_000), max_plies: 600, max_half: 4095, max_full: 30000 };
+            let cfg = StreamCfg { positions: args.budget(300_000, 3_000_000), max_plies: 600, max_half: 4095, max_full: 1_000_000 };
             stream::run(&args, &cfg, &mut rep, &mut |p, rep, rng| c03::check(p, rep, rng));
             let mut rng = gen::rng(args.seed, args.shard, 3);
             if args.thorough {
@@ -165,7 +165,7 @@ fn main() {
         }
         "c04" => c04::run(&args, &mut rep),
         "c05" => {
-            let cfg = StreamCfg { positions: args.budget(200_000, 3_000_000), max_plies: 400, max_half: 4095, max_full: 30000 };
+            let cfg = StreamCfg { positions: args.budget(200_000, 3_000_000), max_plies: 400, max_half: 4095, max_full: 1_000_000 };
             stream::run_carried(&args, &cfg, &mut rep, &mut |p, rep, rng, carried| {
                 c05::check(p, rep, rng);
                 if let Some(bb) = carried {
@@ -194,7 +194,7 @@ fn main() {
             }
         }
         "c06" => {
-            let cfg = StreamCfg { positions: args.budget(160_000, 2_000_000), max_plies: 300, max_half: 4095, max_full: 30000 };
+            let cfg = StreamCfg { positions: args.budget(160_000, 2_000_000), max_plies: 300, max_half: 4095, max_full: 1_000_000 };
             let mut maps = c06::Maps::default();
             // running incremental hashes along the whole walk (as the search threads them down the tree)
             let mut running: Option<(String, u64, u64)> = None;
@@ -238,7 +238,7 @@ fn main() {
             rep.add("distinct_position_keys", maps.key_to_hash.len() as u64);
         }
         "c12" => {
-            let cfg = StreamCfg { positions: args.budget(200_000, 3_000_000), max_plies: 200, max_half: 4095, max_full: 30000 };
+            let cfg = StreamCfg { positions: args.budget(200_000, 3_000_000), max_plies: 200, max_half: 4095, max_full: 1_000_000 };
             stream::run(&args, &cfg, &mut rep, &mut |p, rep, rng| {
                 c12::positive(p, rep, rng);
                 c12::negative(p, rep, rng);
@@ -248,7 +248,7 @@ fn main() {
             c12::random_strings(&mut rep, &mut rng, args.budget(400_000, 6_000_000) / args.nshards.max(1));
         }
         "c13" => {
-            let cfg = StreamCfg { positions: args.budget(40_000, 600_000), max_plies: 300, max_half: 4095, max_full: 30000 };
+            let cfg = StreamCfg { positions: args.budget(40_000, 600_000), max_plies: 300, max_half: 4095, max_full: 1_000_000 };
             stream::run(&args, &cfg, &mut rep, &mut |p, rep, rng| c13::check(p, rep, rng, false));
             // complete 64x64x6 space at sampled positions (all seeds first)
             let mut rng = gen::rng(args.seed, args.shard, 13);
@@ -265,7 +265,7 @@ fn main() {
             }
         }
         "c14" => {
-            let cfg = StreamCfg { positions: args.budget(160_000, 2_400_000), max_plies: 300, max_half: 4095, max_full: 30000 };
+            let cfg = StreamCfg { positions: args.budget(160_000, 2_400_000), max_plies: 300, max_half: 4095, max_full: 1_000_000 };
             let mut foreign: Vec<String> = Vec::new();
             stream::run(&args, &cfg, &mut rep, &mut |p, rep, rng| c14::check(p, rep, rng, &mut foreign));
             let mut rng = gen::rng(args.seed, args.shard, 14);
